@@ -110,7 +110,10 @@ class Program(object):
             progress = False
             for index, statement in enumerate(self.statements):
                 if not statement.fixed_size:
-                    statement.determine_pcr_relative_sizes(self.statements, index)
+                    try:
+                        statement.determine_pcr_relative_sizes(self.statements, index)
+                    except Exception as error:
+                        raise TranslationError(str(error), statement)
                     progress = progress or statement.fixed_size
 
             # No statement could be sized in a full pass: every remaining span straddles
@@ -127,7 +130,10 @@ class Program(object):
             address += statement.code_pkg.size
 
         for index, statement in enumerate(self.statements):
-            statement.fix_addresses(self.statements, index)
+            try:
+                statement.fix_addresses(self.statements, index)
+            except Exception as error:
+                raise TranslationError(str(error), statement)
 
         # Update the symbol table with the proper addresses
         for symbol, value in self.symbol_table.items():
